@@ -99,6 +99,25 @@ class CoopSock:
         self.sched.log.append(('closed', self.label))
 
 
+class ObserverConn:
+    def __init__(self, sched, label):
+        self.sched, self.label = sched, label
+        self.lines = []
+
+    def send_reply(self, msg):
+        from frappy.protocol.interface import encode_msg_frame
+        self.sched.point('send', self.label)
+        line = encode_msg_frame(*msg)
+        self.lines.append(line)
+        self.sched.log.append(('send', self.label, line))
+
+    def __hash__(self):
+        return int(self.label[1:])
+
+    def __eq__(self, other):
+        return self is other
+
+
 def cache_key(value_err, pobj):
     """what an update message for this cache state carries (without qualifiers)"""
     if len(value_err) == 2 and value_err[1] is not None:
